@@ -2,5 +2,5 @@
 (* TraceMem plus completeness: the recorded runs are exactly the             *)
 (* configuration space enumerated by the specification.                      *)
 EXTENDS TraceMem
-ASSUME Cardinality({CfOf(Trace[k]) : k \in Starts}) = NumConfigs
+ASSUME Cardinality({CfOf(Trace[k]) : k \in Starts}) = NumConfigsOf(MemGroups)
 =============================================================================
